@@ -261,7 +261,7 @@ pub fn run(run: &Run) {
     // 65 (2-byte form) and 320 (3-byte form) differ only in which length byte is significant:
     // 320 = 64 + 256*1 + 0, 65 = 64 + 1; likewise 66 / 576
     let csid_menu: Vec<(u32, u8)> = if thorough { vec![(3, 1), (4, 1), (65, 2), (320, 3), (64, 2), (576, 3), (66, 2)] } else { vec![(3, 1), (4, 1), (65, 2), (320, 3)] };
-    let ts_menu: Vec<u32> = vec![5, 0xFF_FFFF, 0x100_0000];
+    let ts_menu: Vec<u32> = vec![5, 0xFF_FFFF, 0x100_0000, 0x100_0007];
     let chunk_sizes: Vec<u32> = if thorough { vec![1, 2, 128] } else { vec![2, 128] };
     // outer combos are generated sequentially, evaluated in parallel
     let mut outers: Vec<(u32, Vec<MsgSpec>)> = Vec::new();
@@ -293,6 +293,11 @@ pub fn run(run: &Run) {
                                         v.push((Some((prev, l)), 3));
                                     }
                                     v.push((Some((prev, l + 1)), 1));
+                                    // a delta of 2^24 (extended) against a non-zero earlier timestamp
+                                    if t >= 0x100_0001 {
+                                        v.push((Some((t - 0x100_0000, l)), 1));
+                                        v.push((Some((t - 0x100_0000, l)), 2));
+                                    }
                                 }
                                 for &(ha, fa) in va.iter() {
                                     for &(hb, fb) in vb.iter() {
